@@ -977,7 +977,7 @@ fn flow_script(r: &mut Rng, kind: u64) -> Vec<Vec<u8>> {
     };
     let mut b = FrameSpec::basic(framing, r.chance(1, 4));
     b.null_hdr = *r.pick(&[[0x1e, 0, 0, 0], [0x1e, 0, 0, 0], [0x1e, 0, 1, 0], [0x02, 0, 0, 0]]);
-    b.ihl = *r.pick(&[5u8, 5, 5, 5, 6, 3, 0, 4, 15]);
+    b.ihl = *r.pick(&[5u8, 5, 5, 5, 5, 5, 6, 15, 3, 0, 4]);
     b.ip_fill = *r.pick(&[1u8, 0]);
     b.src4 = *r.pick(&A4[..3]);
     b.dst4 = *r.pick(&A4[..3]);
@@ -1050,11 +1050,15 @@ fn flow_script(r: &mut Rng, kind: u64) -> Vec<Vec<u8>> {
     out
 }
 
-fn gen_trace(r: &mut Rng) -> Vec<Vec<u8>> {
+fn gen_trace(r: &mut Rng, an: An) -> Vec<Vec<u8>> {
     let nflows = 1 + r.below(3) as usize;
     let mut scripts: Vec<std::collections::VecDeque<Vec<u8>>> = (0..nflows)
         .map(|_| {
-            let k = r.below(3);
+            let k = match an {
+                An::Http if r.chance(3, 4) => 0,
+                An::Tls if r.chance(3, 4) => 1,
+                _ => r.below(3),
+            };
             flow_script(r, k).into()
         })
         .collect();
@@ -1173,10 +1177,19 @@ pub fn run(ctx: &mut Ctx) {
     // 4. end-to-end traces through analyze_pcap (sequential mode), four analyzers
     let n = ctx.n(700, 12_000);
     for i in 0..n {
-        let tr = gen_trace(&mut r);
-        let refs: Vec<&[u8]> = tr.iter().map(|f| f.as_slice()).collect();
-        let c = gen_cfg_for(&mut r, &refs);
         let an = [An::Tcp, An::Http, An::Tls, An::Unified][i % 4];
+        let tr = gen_trace(&mut r, an);
+        let refs: Vec<&[u8]> = tr.iter().map(|f| f.as_slice()).collect();
+        // prefer filters that split the trace (some frames through, some not)
+        let mut c = gen_cfg_for(&mut r, &refs);
+        for _ in 0..8 {
+            let cfg = build_cfg!(huginn_net_tcp, &c);
+            let through = tr.iter().filter(|f| huginn_net_tcp::raw_filter::apply(f, &cfg)).count();
+            if (through != 0 && through != tr.len()) || r.chance(1, 8) {
+                break;
+            }
+            c = gen_cfg_for(&mut r, &refs);
+        }
         emit_run(ctx, an, &c, &tr);
     }
     huginn_net_tcp::uptime::VERIF_CLOCK_MS.store(u64::MAX, std::sync::atomic::Ordering::SeqCst);
